@@ -1,6 +1,11 @@
 package main
 
+import "github.com/xelaj/mtproto/zverif/ref/mtp"
+
 // selfTest runs the reference oracles' known-answer tests; a broken oracle must not produce verdicts.
 func selfTest() error {
+	if err := mtp.SelfTest(); err != nil {
+		return err
+	}
 	return nil
 }
